@@ -285,8 +285,6 @@ def C13(tier):
                     ks[("engine-failure", j["root"], str(j.get("preset")))] = {"rule": "engine-failure", "error": (r or {}).get("error")}
                     continue
                 for v in r.get("violations", []):
-                    if v["rule"].startswith("obligation:assert:") or v["rule"] in ("panic-reachable",):
-                        continue  # debug-only checks are C01's business; here: observable results
                     from .common import norm_detail
                     ks[(v["rule"], j["root"], norm_detail(v["detail"]))] = dict(v, job=j)
                 for u in r.get("unanalysable", []):
@@ -500,6 +498,10 @@ def c02_filter(v, job, res):
     ever occurs after the implementation has observed the end of the buffer and the implementation
     nevertheless commits to Complete/Err (or stores a field): the same bytes followed by more input
     are handled like the reference, so the two calls disagree."""
+    if v["rule"].startswith("scanner-"):
+        # a scanner that deviates from its byte class only when it has seen the end of the buffer
+        # gives different answers for a prefix and for the same bytes followed by more input
+        return v.get("eof_paths") == [True]
     if not v["rule"].startswith("spec:"):
         return False
     cls = v["rule"].split(":")[1]
@@ -510,7 +512,7 @@ def c02_filter(v, job, res):
         return True
     if v.get("eof_paths") != [True]:
         return False
-    if cls == "field":
+    if cls in ("field", "order", "slot"):
         return True
     if cls in ("offset", "errkind"):
         return True
@@ -520,7 +522,7 @@ def c02_filter(v, job, res):
 
 
 def C02(tier):
-    return machine_check("C02", tier, kinds=("entry",), pid_filter=c02_filter, explanation=(
+    return machine_check("C02", tier, kinds=("entry", "scanner"), pid_filter=c02_filter, explanation=(
         "the reference grammars are sequential machines with absorbing verdicts, hence prefix-stable; every entry point equals its reference for "
         "every buffer and every end-of-buffer position (C03/C06-C10/C14 jobs, which fork on the end of input at every read and look-ahead). "
         "A deviation is attributed to C02 when it occurs only on paths on which the end of the buffer had been observed before the "
